@@ -72,3 +72,27 @@ Section Checker.
     | S n => local_nfb e && forallb (nfb n) (children e)
     end.
 End Checker.
+
+(* ---- schema side: the class-free schemas whose parse lies in the normal form (Proofs/C06Image.v):
+   no empty property name, no empty required list, no empty properties object, additionalItems /
+   additionalProperties a boolean or a schema without composition keywords ---- *)
+Definition is_nil {A} (l : list A) : bool := match l with [] => true | _ => false end.
+Definition addl_okSb (o : option json) : bool :=
+  match o with Some (JObj kvs') => negb (has_comp kvs') | _ => true end.
+Definition tidy_nodeb (kvs : list (str * json)) : bool :=
+  (match lookup (s_ "required") kvs with Some j => negb (is_nil (jstr_list j)) | None => true end) &&
+  (match lookup (s_ "properties") kvs with
+   | Some (JObj []) => false
+   | Some (JObj p) => forallb (fun kv : str * json => negb (is_nil (fst kv))) p
+   | _ => true end) &&
+  addl_okSb (lookup (s_ "additionalProperties") kvs) && addl_okSb (lookup (s_ "additionalItems") kvs).
+Fixpoint named_tidyb (fuel : nat) (S0 : json) : bool :=
+  match fuel with
+  | O => false
+  | S n =>
+    match S0 with
+    | JBool _ => true
+    | JObj kvs => tidy_nodeb kvs && forallb (named_tidyb n) (subschemas kvs)
+    | _ => false
+    end
+  end.
